@@ -2,6 +2,7 @@
 //   - a receiver that previously decoded another instance A (non-empty maps / slices / pointers),
 //   - a receiver on which a previous decode of truncated bytes of A FAILED (fresh, and after a successful decode of A),
 //   - the same receiver twice,
+//
 // must give a value deep-equal to B that re-encodes to encode(B) byte for byte (no residue of A, no duplication).
 // (The fresh zero-value receiver is oracle (a).) Production code does hand non-fresh receivers to decoders, e.g.
 // side_chain_manager.GetRippleExtraInfo pre-allocates Pks, signature_manager.getSigInfo pre-allocates the map.
